@@ -62,7 +62,18 @@ try:
             print(f"[lane {a.lane}] {pid} clean scratch tree: rc={rc} violations={len(vio)} ({secs}s)", flush=True)
             if not clean_ok[pid]:
                 print(tail, flush=True)
+        try: sup = json.load(open(os.path.join(SD, name, "meta.json"))).get("superseded_by")
+        except Exception: sup = None
+        if sup:
+            res[name] = {"result": "superseded", "detail": sup}
+            print(f"[lane {a.lane}] {name}: superseded by /repo {sup.get('repo_commit')}", flush=True)
+            continue
         r = sh(["git", "-C", wt, "apply", os.path.join(SD, name, "patch.diff")])
+        if r.returncode:
+            # the tree moved on (fix: commits): try a 3-way application of the same change
+            r = sh(["git", "-C", wt, "apply", "--3way", os.path.join(SD, name, "patch.diff")])
+            if r.returncode == 0 and "with conflicts" not in r.stdout: sh(["git", "-C", wt, "reset", "-q"])
+            else: sh(["git", "-C", wt, "reset", "-q", "--hard"]); r.returncode = 1
         if r.returncode:
             res[name] = {"result": "patch-does-not-apply", "detail": r.stdout[-300:]}
             print(f"[lane {a.lane}] {name}: patch does not apply", flush=True)
